@@ -855,7 +855,7 @@ class Interp:
             p += 1
         prefix = guards[0][:p]
         res = [g[p:] for g in guards]
-        tree = self._tree(list(range(len(states))), res, 0)
+        tree, complete = self._tree(list(range(len(states))), res, 0)
         roots = []
         seen = set()
         for s in states:
@@ -874,11 +874,27 @@ class Interp:
         facts = states[0].facts
         for s in states[1:]:
             facts = facts & s.facts
-        return State(store, prefix, facts)
+        guard = prefix
+        if not complete:
+            # some sibling branches left (return / panic / other exit): remember which paths arrive here
+            disj = FALSE
+            for r in res:
+                disj = mk_or(disj, self._conj(r, 0))
+            if disj != TRUE:
+                guard = prefix + ((disj, True, None),)
+                facts = facts | {disj}
+        return State(store, guard, facts)
+
+    def _conj(self, lits, depth):
+        c = TRUE
+        for lit in lits[depth:]:
+            c = mk_and(c, self._lit_cond(lit))
+        return c
 
     def _tree(self, idxs, res, depth):
+        """decision tree over the residual branch histories -> (tree, covers-all-cases?)"""
         if len(idxs) == 1:
-            return ('leaf', idxs[0])
+            return ('leaf', idxs[0]), len(res[idxs[0]]) <= depth
         groups = []
         index = {}
         exhausted = []
@@ -893,29 +909,46 @@ class Interp:
                 groups.append((lit, []))
             groups[index[key]][1].append(i)
         if exhausted:
-            # several paths with an identical decision history reach the join (e.g. merged
-            # switch arms): their values must agree, which the value merge checks lazily
-            if not groups and len(exhausted) >= 1:
-                return ('same', exhausted)
-            # a path whose history is a prefix of another's: treat it as the default arm
+            if not groups:
+                return ('same', exhausted), True
+            # a path whose history is a prefix of the others': it is the default arm, the others
+            # apply under the conjunction of their remaining decisions
             alts = []
             for lit, members in groups:
-                alts.append((self._lit_cond(lit), self._tree(members, res, depth + 1)))
+                for i in members:
+                    alts.append((self._conj(res[i], depth), ('leaf', i)))
             alts.append((TRUE, ('same', exhausted) if len(exhausted) > 1 else ('leaf', exhausted[0])))
-            return ('node', alts)
+            return ('node', alts), True
         if len(groups) == 1:
-            return self._tree(groups[0][1], res, depth + 1)
-        # boolean pair on the same atom?
+            sub, _c = self._tree(groups[0][1], res, depth + 1)
+            return sub, False
         if len(groups) == 2 and groups[0][0][0] == groups[1][0][0] and groups[0][0][1] != groups[1][0][1]:
             (la, ma), (lb, mb) = groups
             if not la[1]:
                 (la, ma), (lb, mb) = (lb, mb), (la, ma)
-            return ('node', [(la[0], self._tree(ma, res, depth + 1)), (TRUE, self._tree(mb, res, depth + 1))])
+            ta, ca = self._tree(ma, res, depth + 1)
+            tb, cb = self._tree(mb, res, depth + 1)
+            return ('node', [(la[0], ta), (TRUE, tb)]), (ca and cb)
+        grp = groups[0][0][2]
+        if grp is None or any(lit[2] != grp for lit, _ in groups):
+            # unrelated decisions (e.g. a disjunctive path condition from an earlier partial join):
+            # the arriving paths are mutually exclusive, so each applies under its full condition
+            flat = [i for _, members in groups for i in members]
+            alts = []
+            for k, i in enumerate(flat):
+                cnd = self._conj(res[i], depth) if k < len(flat) - 1 else TRUE
+                alts.append((cnd, ('leaf', i)))
+            return ('node', alts), False
         alts = []
+        complete = True
         for k, (lit, members) in enumerate(groups):
-            c = self._lit_cond(lit) if k < len(groups) - 1 else TRUE
-            alts.append((c, self._tree(members, res, depth + 1)))
-        return ('node', alts)
+            sub, c = self._tree(members, res, depth + 1)
+            complete = complete and c and lit[2] is not None and lit[2] == grp
+            cnd = self._lit_cond(lit) if k < len(groups) - 1 else TRUE
+            alts.append((cnd, sub))
+        if grp is None or len(groups) != grp[1]:
+            complete = False
+        return ('node', alts), complete
 
     def _lit_cond(self, lit):
         return lit[0] if lit[1] else mk_not(lit[0])
